@@ -168,6 +168,15 @@ impl NodeDrive {
                         );
                     } else {
                         log::debug!("To reclame_space nothing need to be done on delete");
+                        // The rewritten files do not contain the removed key any more: drop the
+                        // tombstone from memory as well, its key_disk_addr points into the old
+                        // keys file and a later incremental snapshot would overwrite another record
+                        let mut map = db.map.write().expect("Error getting the db.map.write");
+                        if let Some(current) = map.get(&key) {
+                            if current.state == ValueStatus::Deleted {
+                                map.remove(&key);
+                            }
+                        }
                     }
                 }
             }
